@@ -463,5 +463,9 @@ func runCase(c *hx.Ctx, coll *lib.Coll, k int, r *rand.Rand, addr string, domain
 			c.Add("gray", 1)
 		}
 	}
+	if m := coll.Mutations(); len(m) > 0 {
+		fail("delivered-message-changed-later", m[0])
+		return
+	}
 	c.Add("messages_delivered_and_matched", int64(len(got)))
 }
